@@ -516,6 +516,26 @@ class Verdict:
             op, x, y, g = SWAP[op], y, x, g2
         if g[2] != "strong":
             return None
+        # the orphan test applied to one member ahead of the scan: `strong(X) > M[Forward(X)]` proves an outside owner
+        # (the scan would find the same entry); anything else about a single entry proves nothing
+        pt = y[1] if y[0] == "deref" else y
+        if pt[0] == "field" and pt[2] == "0" and pt[1][0] == "variant" and pt[1][2] == "Some" and pt[1][1][0] == "call" \
+                and pt[1][1][2].startswith("hashbrown::HashMap") and pt[1][1][2].endswith("::get") and len(pt[1][1][3]) >= 2:
+            mref, kref = pt[1][1][3][0], pt[1][1][3][1]
+            Mp = mk_deref(mref) if mref[0] == "ref" else mref
+            key = kref[1] if kref[0] == "ref" else kref
+            if table_of(mref) is None and key[0] == "agg" and key[2] == LINK:
+                flds = dict(key[5])
+                kd = flds.get("kind")
+                if flds.get("ptr") == g[1] and kd is not None and kd[0] == "agg" and kd[3] == "Forward" and op in ("Gt", "Le"):
+                    ext = truth if op == "Gt" else not truth
+                    eng.obl("GATE-6", "verdict:point", b)
+                    if ext:
+                        if ("anyres", Mp, True) in st.flags:
+                            return False     # the scan over the same unchanged map found no such member
+                        return add(st, ("verdict_checked", Mp), ("anyres", Mp, False))
+                    return None
+            return None
         go = group_of(g[1])
         if go is None:
             return None
